@@ -1,28 +1,29 @@
 /-
-  Proof/MultiChanS4.lean — `MultiChan.Inv` is preserved by the events of group S4
-  (one lemma per event; several modules so that they compile in parallel).
+  Proof/MultiChanS4.lean — `MultiChan.Inv` (one-list discipline) is preserved by the events of
+  group S4 (one lemma per event; several modules so that they compile in parallel).
 -/
 import LibfiberVerif.Proof.MultiChanInv
 
 set_option linter.unusedSimpArgs false
+set_option linter.unusedVariables false
 
 namespace LibfiberVerif.MultiChan
 
 set_option maxHeartbeats 4000000 in
-theorem inv_step_wStateWaiting (s s' : St) (f : _) (hi : Inv s) (hs : step s (.wStateWaiting f) = some s') : Inv s' := by
+theorem inv_step_wStateWaiting (s s' : St) (f : _) (htwo : s.two = false) (hi : Inv s) (hs : step s (.wStateWaiting f) = some s') : Inv s' := by
   have hI := hi
   obtain ⟨h1, h2, h3, h4, h5, h6, h7, h8, h9, h10, h11, h12, h13, h14, h15, h16, h17, h18, h19, h20, h21, h22, h23, h24, h25, h26, h27, h28, h29, h30, h31, h32⟩ := hi
-  simp only [step] at hs
+  simp only [step, htwo] at hs
   repeat' (split at hs)
   all_goals (try simp at hs)
   all_goals (first | subst hs | (obtain ⟨_, hs⟩ := hs; subst hs))
   all_goals (constructor <;> mc_close)
 
 set_option maxHeartbeats 4000000 in
-theorem inv_step_wStateReady (s s' : St) (f g : _) (hi : Inv s) (hs : step s (.wStateReady f g) = some s') : Inv s' := by
+theorem inv_step_wStateReady (s s' : St) (f g : _) (htwo : s.two = false) (hi : Inv s) (hs : step s (.wStateReady f g) = some s') : Inv s' := by
   have hI := hi
   obtain ⟨h1, h2, h3, h4, h5, h6, h7, h8, h9, h10, h11, h12, h13, h14, h15, h16, h17, h18, h19, h20, h21, h22, h23, h24, h25, h26, h27, h28, h29, h30, h31, h32⟩ := hi
-  simp only [step] at hs
+  simp only [step, htwo] at hs
   repeat' (split at hs)
   all_goals (try simp at hs)
   all_goals (first | subst hs | (obtain ⟨_, hs⟩ := hs; subst hs))
